@@ -1206,8 +1206,13 @@ class C10(Oracle):
                 w.violation('C10', 'shape', st, {'source_shape': list(sshape),
                                                  'destination_shape': list(np.shape(got))}, culprit)
                 return
+        # (assignment, unlike np.broadcast_to, drops leading axes of length one: a (1, n) source fills an
+        #  (n,) selection)
+        bshape = sshape
+        while len(bshape) > np.ndim(got) and bshape and bshape[0] == 1:
+            bshape = bshape[1:]
         try:
-            want = np.broadcast_to(obj_array(exp, sshape), np.shape(got))
+            want = np.broadcast_to(obj_array(exp, bshape), np.shape(got))
         except Exception:
             w.violation('C10', 'shape', st, {'source_shape': list(sshape),
                                              'destination_region_shape': list(np.shape(got))}, culprit)
